@@ -130,6 +130,7 @@ type sSegment struct {
 	res     int
 	lo, hi  []int64 // per resource: commits acknowledged before the open / started before the open returned
 	evs     []sEvent
+	cut     bool // reading was cut short because the writers had finished (the stream may be incomplete)
 }
 
 // RunS executes the stress plan.
@@ -343,6 +344,7 @@ func RunS(p SPlan) (v hk.Verdict) {
 							drained = true
 						}
 					case <-writersDone:
+						seg.cut = true
 						// drain what is left, then stop
 						for !drained {
 							select {
@@ -421,6 +423,10 @@ func RunS(p SPlan) (v hk.Verdict) {
 			rs = []int{seg.res}
 
 			if len(seg.evs) == 0 {
+				if seg.cut {
+					continue
+				}
+
 				v.Failf("%s delivered no initial event", desc)
 
 				continue
@@ -497,6 +503,11 @@ func RunS(p SPlan) (v hk.Verdict) {
 			}
 
 			if !boot && !errored {
+				if seg.cut {
+					// the run ended while the bootstrap contents were still being handed over
+					continue
+				}
+
 				v.Failf("%s: no Bootstrapped event among %d events", desc, len(seg.evs))
 
 				continue
